@@ -45,10 +45,10 @@ checks = [
   "For every notation pair of the property a generated class declares the method in notation A and in notation B (class and instance method; alone / after a required Int / before a trailing String); every argument tuple up to length 2 (quick) / 3 (thorough) over seven literal kinds and the --suggest rendering must give identical output under both configurations.",
   TRUST),
  ("C04", "bounded-exhaustive enumeration of (program, row, editor mode) triples on the real code with crash/hang detection and output-grammar oracle; candidates confirmed on the unmodified binary",
-  "Every corpus and generated program x every row 0..lines+2 x {--suggest, --hover, --define}, plus line-boundary prefixes and cursor-after-dot variants (file cut after an identifier/)/] with `.` appended, with/without the remainder) at rows cursor-1..cursor+1: exit status 0, no panic, no hang, every line a %/@/$ record or a diagnostic of the target file.",
+  "Every corpus and generated program x every row 0..lines+2 x {--suggest, --hover, --define}, plus line-boundary prefixes and cursor-after-dot variants (file cut after an identifier/)/] with `.` appended, with/without the remainder) at rows cursor-1..cursor+1, the buffer cut after an identifier with a just-opened construct appended (`[`, `[0`, `(`, ` do |`, ` { |v`, ...), and programs with two-line string literals in quoted positions: exit status 0, no panic, no hang, every line a %/@/$ record or a diagnostic of the target file.",
   TRUST),
  ("C11", "metamorphic bounded-exhaustive exploration: every admissible statement boundary of every host x every fragment, and ordered pairs of independent programs; real code, records outside the fragment compared after the row shift",
-  "18 self-contained fragments over fresh names (conditionals, nested conditionals, case/in, case/when, blocks, array-literal statement, builtin calls on unions, hash merge, push, loop, modifier while/until/if/unless, ternary, begin/rescue) are inserted at every statement boundary that is not directly before a block closer / branch keyword / end of file (quick: 4 fragments everywhere, all fragments on the 150 smallest hosts and on generated hosts); whole independent programs are appended pairwise.",
+  "20 self-contained fragments over fresh names (conditionals, nested conditionals, case/in, case/when, blocks, array-literal statement, builtin calls on unions, hash merge, push, loop, modifier while/until/if/unless, ternary, begin/rescue) are inserted at every statement boundary that is not directly before a block closer / branch keyword / end of file (quick: 4 fragments everywhere, all fragments on the 150 smallest hosts and on generated hosts); whole independent programs are appended pairwise.",
   TRUST + " Boundaries come from the harness's line scanner. An erroneous fragment is not used: ti stops checking a body after its first error, which the statement does not rule out (DESIGN.md section 11)."),
  ("C27", "exhaustive exploration of class-group x wrapper x decoy placements, real code, records compared after removing the qualification prefix and mapping rows",
   "Eight class groups (single class, inheritance, mixin, private section, initialize arity, nested class with outside parent, Object-inherited methods, class-method chain) are analysed at top level and wrapped in one / two nested modules with outside references qualified, each alone and next to a same-named decoy class (top level before/after the wrapped group, or inside another module); the group's and its uses' records must be those of the top-level reference.",
@@ -75,7 +75,7 @@ checks = [
   "Superclass chains of depth 1-3 (thorough 4), a method at each level under each visibility, include/extend (and both) of a module at each level, class methods via def self./class << self, initialize arities 0-2 x 0-3 arguments, 14 call forms, class names plain and colliding with configured short names, and classes inside 1-3 nested modules whose unqualified superclass / included module is defined at each enclosing level (with a top-level decoy); one call per program; undefined/invisible must be reported on the call row, defined and visible must not and must have the body's type.",
   TRUST),
  ("C22", "exhaustive enumeration of class bodies (sequences of definition kinds) x editor queries against generator-known def rows",
-  "Every sequence of <=3 (thorough 4) items from 13 definition kinds (plain, after private/protected/public, def self., class << self, endless, multi-line signature, endless multi-line, methods returning an instance of the own class / a peer class / a top-level class), optionally nested in a module, plus a top-level method: -i must give exactly one hint per method at its def row with the right c/ or i/ tag and visibility; --define --row=<call row> must contain the method's def row; --hover --row=<call row> must name the method.",
+  "Sequences of items from 15 definition kinds (quick: three items over the first 11 kinds, two over all; thorough: three over all, four over the first 9): (plain, class << self with its own private/protected section, after private/protected/public, def self., class << self, endless, multi-line signature, endless multi-line, methods returning an instance of the own class / a peer class / a top-level class), optionally nested in a module, plus a top-level method: -i must give exactly one hint per method at its def row with the right c/ or i/ tag and visibility; --define --row=<call row> must contain the method's def row; --hover --row=<call row> must name the method.",
   TRUST + " Visibility tags of class methods are not checked."),
  ("C23", "exhaustive enumeration of receivers x cursor forms against a reference suggestion set computed from the configuration JSON",
   "An instance of every literal class, every configured class with class methods, user hierarchies (instance and class receivers, namespaced, module-in-module, visibility sections around class << self), each as `recv.` mid-file, as last line and inside a method body: every method of the class and its ancestors incl. Object/Kernel must be suggested, nothing outside that set, and no private/unrelated/wrong-kind method of the user classes.",
